@@ -36,7 +36,7 @@ import (
 func init() {
 	registerStream(&Stream{
 		Name:     "decforge",
-		Rule:     "rd/bd/fd/f3: valid encodings (range: chunk 1024..4096, logRange 8..15, 1..3 chunks, 1..3 Reads; binary: test predictors c/a/o0/o1/lcg and the real CM; FPAQ, also through the version-3 bit decoder decodeBitV1 = f3) mutated: intact, intact+garbage, truncated at EVERY byte (short streams) or at sampled bytes, every single bit flip of the first 64 bits + sampled payload flips, several flips, wrong counts (smaller, larger, 0, 63/64/65), forged chunk size fields at every boundary of the acceptance rules (binary: 0, actual+-1, bufSize-1..+1, 2*length-1..+1, 2^28, 2^32-1; FPAQ: 819/820, 1023..1025, 2*count-1..+1), random bytes, two or three Reads on one decoder (stale buffer / stale f2s), hand-built range headers (logRange 15 table then logRange 8 table: stale f2s entries, zero-frequency symbol => rng 0, spin to end of stream; slot beyond f2s), large counts on tiny payloads (decoder runs past the payload into the buffer tail). bx: real CM/TPAQ/TPAQX on forged input (oracle only). distinct_nontrivial = distinct ops.",
+		Rule:     "rd/bd/fd/f3: valid encodings (range: chunk 1024..4096, logRange 8..15, 1..3 chunks, 1..3 Reads; binary: test predictors c/a/o0/o1/lcg and the real CM; FPAQ, also through the version-3 bit decoder decodeBitV1 = f3) mutated: intact, intact+garbage, truncated at EVERY byte (short streams) or at sampled bytes, every single bit flip of the first 64 bits + sampled payload flips, several flips, wrong counts (smaller, larger, 0, 63/64/65), forged chunk size fields at every boundary of the acceptance rules (binary: 0, actual+-1, bufSize-1..+1, 2*length-1..+1, 2^28, 2^32-1, multiples of 2^29 whose bit count wraps in uint32; FPAQ: 819/820, 1023..1025, 2*count-1..+1, the same wrap values), random bytes, two or three Reads on one decoder (stale buffer / stale f2s), hand-built range headers (logRange 15 table then logRange 8 table: stale f2s entries, zero-frequency symbol => rng 0, spin to end of stream; slot beyond f2s), large counts on tiny payloads (decoder runs past the payload into the buffer tail). bx: real CM/TPAQ/TPAQX on forged input (oracle only). distinct_nontrivial = distinct ops.",
 		Gen:      dfGen,
 		Exec:     dfExec,
 		Watchdog: 120 * time.Second,
@@ -589,7 +589,9 @@ func dfGen(r *rand.Rand, tier string, n int, emit func(op string, tags ...string
 				vl, act := dfVarintAt(v)
 				length, bufSize := dfBinLen(sz)
 				for _, f := range []int64{0, 1, int64(act) - 4, int64(act) - 1, int64(act) + 1, int64(act) + 4, int64(bufSize) - 1, int64(bufSize), int64(bufSize) + 1,
-					int64(2*length) - 1, int64(2 * length), int64(2*length) + 1, 1 << 28, 1<<32 - 1} {
+					int64(2*length) - 1, int64(2 * length), int64(2*length) + 1, 1 << 28, 1<<32 - 1,
+					// values whose bit count 8*f wraps in 32-bit arithmetic
+					1 << 29, 1<<29 + 5, 1 << 30, 3 << 29, 1 << 31, 3 << 30, 7 << 29, 1<<32 - 8} {
 					if f < 0 {
 						continue
 					}
@@ -676,7 +678,9 @@ func dfGen(r *rand.Rand, tier string, n int, emit func(op string, tags ...string
 			dfMutate(r, v, []int{sz}, thorough, func(s []byte, c []int, fam string) { fd(c, s, fam) })
 			vl, act := dfVarintAt(v)
 			for _, f := range []int64{0, 1, int64(act) - 4, int64(act) - 1, int64(act) + 1, int64(act) + 4, 819, 820, 1023, 1024, 1025,
-				int64(2*sz) - 1, int64(2 * sz), int64(2*sz) + 1, 1 << 28, 1<<32 - 1} {
+				int64(2*sz) - 1, int64(2 * sz), int64(2*sz) + 1, 1 << 28, 1<<32 - 1,
+				// values whose bit count 8*f wraps in 32-bit arithmetic
+				1 << 29, 1<<29 + 5, 1 << 30, 3 << 29, 1 << 31, 3 << 30, 7 << 29, 1<<32 - 8} {
 				if f < 0 {
 					continue
 				}
